@@ -14,7 +14,7 @@ func init() {
 		ID: "C03", Level: "exploration",
 		Rule: "one case = three generated tables a(id,k,v,s) b(id,k,w) c(id,k) (duplicate and NULL join keys, NULLs, empty tables) and ~10 generated queries: FROM = table | derived table | CTE | recursive CTE | CROSS/INNER/LEFT/RIGHT/FULL JOIN ON | JOIN USING | NATURAL JOIN | LATERAL, nested two levels; WHERE = comparisons, AND/OR/NOT, IS NULL, BETWEEN, IN list, IN subquery, EXISTS (correlated), scalar subqueries (correlated); select list = columns, *, t.*, arithmetic, CASE, aliases. " +
 			"Oracles: (1) an independent nested-loop relational evaluator (bag equality of typed rows; sequence equality when the query has a single source), (2) ternary-logic partition Q = Q[p] + Q[NOT p] + Q[p IS UNKNOWN] with predicates over built-in functions, (3) outer-join identities LEFT = INNER + unmatched-left, RIGHT = mirrored LEFT, FULL = LEFT + unmatched-right. non-trivial = at least 6 queries judged with a non-empty result somewhere; distinct = digest of tables and queries. Every 8th case has 160..700 rows in table a and --cpu 2..8.",
-		Quick: 250, Thorough: 8000, FloorQuick: 150, FloorThorough: 5000,
+		Quick: 250, Thorough: 30000, FloorQuick: 150, FloorThorough: 18000,
 		Assumptions: []string{"the reference evaluator is judged only on integer / non-numeric-text / NULL cells where the coercion ladder is unambiguous", "multi-source results are compared as bags: the manual fixes no order for joins"},
 		Setup:       func(w *core.Worker) { core.HermeticProcess(w.Work) },
 		Fn:          c03Case,
